@@ -180,6 +180,15 @@ theorem dispatch_older (s : Core) (h : Str) (attrsD : List (Str × Str)) (c' : C
 
 theorem endFinish_older (o : Ops) (c : Core) : older (endFinish o c) = older c := rfl
 
+/-- stage 4: a core in the frame of another has the same complete entries -/
+theorem Frame4.older {c c' : Core} (h : Frame4 c c') : older c' = older c := by
+  unfold Mixin.older
+  rw [h.1]
+  by_cases hin : c.inentry = true
+  · simp only [hin, ↓reduceIte]; exact h.2.2.2.2.2.2.2.2.2.1
+  · simp only [hin, Bool.false_eq_true, ↓reduceIte]
+    exact h.2.2.2.2.2.2.2.2.2.2.2 (by simpa using hin)
+
 theorem step_older (o : Ops) (s : MSt) (e : MEv) (s' : MSt) (h : mstep o s e = .ok s') :
     ∃ pre, older s'.c = pre ++ older s.c := by
   cases e with
@@ -206,6 +215,23 @@ theorem step_older (o : Ops) (s : MSt) (e : MEv) (s' : MSt) (h : mstep o s e = .
         simp [older, hf.1, hf.2.1]
     | none =>
     rw [hx] at h
+    simp only at h
+    cases hl : lgKind (handlerName (startPre o s.c tag attrs).1 tag) with
+    | some kind =>
+      -- stage 4: a link or guid start handler writes to the current context only
+      rw [hl] at h
+      simp only at h
+      cases hr : startLG o (startPre o s.c tag attrs).1 kind (startPre o s.c tag attrs).2 with
+      | error w => rw [hr] at h; simp [applyExt] at h
+      | ok r =>
+        obtain ⟨c', es⟩ := r
+        have hf := startLG_frame4 _ _ _ _ _ _ hr
+        rw [hr] at h
+        simp only [applyExt, Outcome.ok.injEq] at h
+        rw [← h]
+        exact ⟨[], by rw [← hs]; simpa using hf.older⟩
+    | none =>
+    rw [hl] at h
     simp only at h
     cases hd : dispatchCore (startPre o s.c tag attrs).1 (handlerName (startPre o s.c tag attrs).1 tag) (startPre o s.c tag attrs).2 with
     | error w => rw [hd] at h; simp [applyDispatch] at h
@@ -263,12 +289,17 @@ theorem step_older (o : Ops) (s : MSt) (e : MEv) (s' : MSt) (h : mstep o s e = .
           simp only [hin', Bool.false_eq_true, ↓reduceIte, hp.2] at hp ⊢
           exact ⟨[], by simpa using hp.1⟩
       · split at h
-        · -- a simple date element: pop, then `_save(K_parsed, …)` in the current context
-          injection h with h; rw [← h]
-          exact ⟨[], by simp [endFinish_older, setContext_older, (pop_older o s _).1]⟩
+        · -- stage 4: a link or guid end handler
+          obtain ⟨c1, st, hf, hs', _⟩ := endLG_ok o s s' _ h
+          rw [hs']
+          exact ⟨[], by simpa [endFinish_older] using hf.older⟩
         · split at h
-          · cases h
-          · injection h with h; rw [← h]; exact ⟨[], by simp [endFinish_older, (pop_older o s _).1]⟩
+          · -- a simple date element: pop, then `_save(K_parsed, …)` in the current context
+            injection h with h; rw [← h]
+            exact ⟨[], by simp [endFinish_older, setContext_older, (pop_older o s _).1]⟩
+          · split at h
+            · cases h
+            · injection h with h; rw [← h]; exact ⟨[], by simp [endFinish_older, (pop_older o s _).1]⟩
   | data t =>
     simp only [mstep] at h
     injection h with h
